@@ -222,8 +222,11 @@ Proof.
         rewrite Z_div_zero_opp_full; [rewrite HmD; lia|]. rewrite HmodD. apply Htz in E1. rewrite E1, E2. lia.
       * destruct (fxadd_one (r ++ [0]) Wr Nr) as (Fv & Fw & Fn).
         rewrite normalize_ival by assumption. rewrite Fv, val_ext0, Hv.
-        rewrite Z_div_nz_opp_full; [rewrite HmD; lia|]. rewrite HmodD. intros Z0. apply E. apply Hst.
-        assert (vlo = 0 /\ vK mod p = 0) as [A C] by nia. split; [apply Htz; exact C|exact A].
+        rewrite Z_div_nz_opp_full; [rewrite HmD; lia|unfold D; apply Z.pow_nonzero; lia|]. rewrite HmodD. intros Z0. apply E. apply Hst.
+        assert (0 <= P * (vK mod p)) as Hnn by (apply Z.mul_nonneg_nonneg; lia).
+        assert (vlo = 0) as A by lia.
+        assert (P * (vK mod p) = 0) as C0 by lia. apply Z.mul_eq_0 in C0.
+        assert (vK mod p = 0) as C by lia. split; [apply Htz; exact C|exact A].
 Qed.
 
 (** * log2i and the fixnum branch *)
@@ -272,7 +275,7 @@ Proof.
       * cbn [ival]. destruct (Z.gtb_spec c (-64)) as [|Hbig]; [reflexivity|].
         pose proof FIX_lt_B. assert (B <= 2 ^ (- c)) as HBc by (rewrite B_eq; apply Z.pow_le_mono_r; lia).
         destruct (Z.ltb_spec z 0) as [Hz|Hz].
-        -- replace z with (- (- z)) at 2 by lia. symmetry. apply div_small_neg. lia.
+        -- symmetry. rewrite <- (Z.opp_involutive z). apply div_small_neg. lia.
         -- symmetry. apply Z.div_small. lia.
       * destruct (log2i (z mod B) + c + 1 <? 63) eqn:El.
         -- cbn [ival]. apply shift_fix_small; [exact Hwf|lia|exact El].
